@@ -46,6 +46,7 @@ type c28Snapshot struct {
 type c28Topic struct {
 	Name      string
 	ExplicitI bool // topic id stored explicitly (operator) instead of derived by the store
+	IDGen     int  // >0: the topic was re-created and its stored id is the one of generation IDGen
 	TopicErr  int16
 	Internal  bool
 	Parts     []c28Part
@@ -94,6 +95,29 @@ func c28DrawSnapshot(t *rapid.T) c28Snapshot {
 	return s
 }
 
+// id is the topic id the store reports for the topic (a zero stored id is derived from the name).
+func (tp c28Topic) id() [16]byte {
+	if tp.IDGen > 0 {
+		return metadata.TopicIDForName(fmt.Sprintf("%s#gen%d", tp.Name, tp.IDGen))
+	}
+	return metadata.TopicIDForName(tp.Name)
+}
+
+func (s c28Snapshot) clone() c28Snapshot {
+	out := c28Snapshot{Brokers: s.Brokers, Controller: s.Controller}
+	for _, tp := range s.Topics {
+		c := tp
+		c.Parts = nil
+		for _, p := range tp.Parts {
+			q := p
+			q.Repl = append([]int32(nil), p.Repl...)
+			c.Parts = append(c.Parts, q)
+		}
+		out.Topics = append(out.Topics, c)
+	}
+	return out
+}
+
 func (s c28Snapshot) cluster() metadata.ClusterMetadata {
 	cm := metadata.ClusterMetadata{ControllerID: s.Controller, ClusterID: kmsg.StringPtr("vf-cluster")}
 	for i := 0; i < s.Brokers; i++ {
@@ -101,8 +125,8 @@ func (s c28Snapshot) cluster() metadata.ClusterMetadata {
 	}
 	for _, tp := range s.Topics {
 		mt := protocol.MetadataTopic{Topic: kmsg.StringPtr(tp.Name), ErrorCode: tp.TopicErr, IsInternal: tp.Internal}
-		if tp.ExplicitI {
-			mt.TopicID = metadata.TopicIDForName(tp.Name)
+		if tp.IDGen > 0 || tp.ExplicitI {
+			mt.TopicID = tp.id()
 		}
 		for _, p := range tp.Parts {
 			mt.Partitions = append(mt.Partitions, protocol.MetadataPartition{ErrorCode: p.Err, Partition: p.ID, Leader: p.Leader,
@@ -220,235 +244,398 @@ func c28OnlyProxy(ids []int32) bool {
 	return true
 }
 
+// c28History is the per-case state: ONE proxy instance, the model of the store content at
+// this moment, and every topic id that was ever valid (so later by-id requests can ask for
+// ids of topics that were deleted or re-created meanwhile).
+type c28History struct {
+	p       *proxy
+	store   *metadata.InMemoryStore
+	snap    c28Snapshot
+	everIDs [][16]byte
+	everSet map[[16]byte]bool
+	changed bool // store content changed after the first request
+	trace   []string
+}
+
+func (h *c28History) remember() {
+	for _, tp := range h.snap.Topics {
+		id := tp.id()
+		if !h.everSet[id] {
+			h.everSet[id] = true
+			h.everIDs = append(h.everIDs, id)
+		}
+	}
+}
+
+// c28Mutate changes the store content the way the running system does: topic deleted,
+// deleted and re-created (new topic id), partitions added, leaders moved, topic created.
+func c28Mutate(t *rapid.T, h *c28History) {
+	nb := h.snap.Brokers
+	ops := []string{"delete", "recreate", "grow", "move", "add"}
+	if len(h.snap.Topics) == 0 {
+		ops = []string{"add"}
+	}
+	op := rapid.SampledFrom(ops).Draw(t, "mutation")
+	pick := func() int { return rapid.IntRange(0, len(h.snap.Topics)-1).Draw(t, "victim") }
+	switch op {
+	case "delete":
+		i := pick()
+		h.trace = append(h.trace, "delete "+h.snap.Topics[i].Name)
+		h.snap.Topics = append(h.snap.Topics[:i:i], h.snap.Topics[i+1:]...)
+	case "recreate":
+		i := pick()
+		tp := &h.snap.Topics[i]
+		tp.IDGen++
+		np := rapid.IntRange(1, 4).Draw(t, "newParts")
+		tp.Parts = nil
+		for k := 0; k < np; k++ {
+			l := int32(rapid.IntRange(0, nb-1).Draw(t, "leader"))
+			tp.Parts = append(tp.Parts, c28Part{ID: int32(k), Leader: l, Repl: []int32{l}})
+		}
+		h.trace = append(h.trace, fmt.Sprintf("recreate %s gen%d parts=%d", tp.Name, tp.IDGen, np))
+	case "grow":
+		i := pick()
+		tp := &h.snap.Topics[i]
+		add := rapid.IntRange(1, 2).Draw(t, "addParts")
+		for k := 0; k < add; k++ {
+			l := int32(rapid.IntRange(0, nb-1).Draw(t, "leader"))
+			tp.Parts = append(tp.Parts, c28Part{ID: int32(len(tp.Parts)), Leader: l, Repl: []int32{l}})
+		}
+		h.trace = append(h.trace, fmt.Sprintf("grow %s +%d", tp.Name, add))
+	case "move":
+		i := pick()
+		tp := &h.snap.Topics[i]
+		for k := range tp.Parts {
+			if tp.Parts[k].Leader >= 0 {
+				tp.Parts[k].Leader = (tp.Parts[k].Leader + 1) % int32(nb)
+			}
+			if tp.Parts[k].Epoch < 1<<30 {
+				tp.Parts[k].Epoch++
+			}
+			tp.Parts[k].Repl = []int32{(tp.Parts[k].Leader + int32(nb)) % int32(nb)}
+		}
+		h.trace = append(h.trace, "move-leaders "+tp.Name)
+	case "add":
+		have := map[string]bool{}
+		for _, tp := range h.snap.Topics {
+			have[tp.Name] = true
+		}
+		var free []string
+		for _, n := range c28NamePool {
+			if !have[n] {
+				free = append(free, n)
+			}
+		}
+		if len(free) == 0 {
+			return
+		}
+		n := rapid.SampledFrom(free).Draw(t, "newTopic")
+		tp := c28Topic{Name: n, ExplicitI: rapid.Bool().Draw(t, "explicitID")}
+		for k, np := 0, rapid.IntRange(1, 3).Draw(t, "newParts"); k < np; k++ {
+			l := int32(rapid.IntRange(0, nb-1).Draw(t, "leader"))
+			tp.Parts = append(tp.Parts, c28Part{ID: int32(k), Leader: l, Repl: []int32{l}})
+		}
+		h.snap.Topics = append(h.snap.Topics, tp)
+		h.trace = append(h.trace, "add "+n)
+	}
+	h.store.Update(h.snap.cluster())
+	h.changed = true
+	h.remember()
+}
+
+// c28Request draws one Metadata request, sends it through the proxy and compares the reply
+// with the reference projection of the store content AT THIS MOMENT. It returns whether
+// the request was non-trivial by the stated rule.
+func c28Request(t *rapid.T, st *vfkit.Stats, h *c28History) bool {
+	snap, store, p := h.snap, h.store, h.p
+	// rapid favours small indexes: the interesting kinds / versions come first
+	kind := rapid.SampledFrom([]string{"ids", "names", "all", "ids", "names", "empty"}).Draw(t, "kind")
+	var version int16
+	switch kind {
+	case "ids":
+		version = rapid.SampledFrom([]int16{12, 10, 11}).Draw(t, "version")
+	case "empty":
+		version = rapid.SampledFrom([]int16{12, 9, 7, 1, 4, 10, 5, 8, 2, 3, 6, 11}).Draw(t, "version")
+	default:
+		version = rapid.SampledFrom([]int16{12, 9, 7, 0, 10, 1, 11, 8, 6, 4, 5, 2, 3}).Draw(t, "version")
+	}
+	rq := c28Req{Version: version, Kind: kind}
+	req := kmsg.NewPtrMetadataRequest()
+	req.Version = version
+	req.AllowAutoTopicCreation = rapid.Bool().Draw(t, "autoCreate")
+	hasUnknown := false
+	staleID := false
+	var wantIDs [][16]byte
+	currentID := map[[16]byte]bool{}
+	for _, tp := range snap.Topics {
+		currentID[tp.id()] = true
+	}
+	switch rq.Kind {
+	case "all":
+		req.Topics = nil
+	case "empty":
+		req.Topics = []kmsg.MetadataRequestTopic{}
+	case "names":
+		n := rapid.IntRange(1, 4).Draw(t, "nreq")
+		for i := 0; i < n; i++ {
+			var name string
+			if len(snap.Topics) > 0 && rapid.IntRange(0, 2).Draw(t, "knownDie") != 1 {
+				name = snap.Topics[rapid.IntRange(0, len(snap.Topics)-1).Draw(t, "pick")].Name
+			} else {
+				name = rapid.SampledFrom(append([]string{"nope", "orders2", "A"}, c28NamePool...)).Draw(t, "name")
+			}
+			rq.Names = append(rq.Names, name)
+			rt := kmsg.NewMetadataRequestTopic()
+			rt.Topic = kmsg.StringPtr(name)
+			req.Topics = append(req.Topics, rt)
+		}
+	case "ids":
+		n := rapid.IntRange(1, 4).Draw(t, "nreq")
+		for i := 0; i < n; i++ {
+			var id [16]byte
+			src := rapid.SampledFrom([]string{"stale", "current", "ever", "absent-name", "unknown"}).Draw(t, "idSource")
+			var stale [][16]byte // ids that were valid earlier on this proxy instance and are not any more
+			for _, e := range h.everIDs {
+				if !currentID[e] {
+					stale = append(stale, e)
+				}
+			}
+			switch {
+			case src == "stale" && len(stale) > 0:
+				id = stale[rapid.IntRange(0, len(stale)-1).Draw(t, "stalePick")]
+			case src == "ever" && len(h.everIDs) > 0:
+				// ids that are or WERE valid on this proxy instance; the latest-remembered first
+				id = h.everIDs[len(h.everIDs)-1-rapid.IntRange(0, len(h.everIDs)-1).Draw(t, "everPick")]
+			case (src == "current" || src == "ever" || src == "stale") && len(snap.Topics) > 0:
+				id = snap.Topics[rapid.IntRange(0, len(snap.Topics)-1).Draw(t, "pick")].id()
+			case src == "absent-name":
+				id = metadata.TopicIDForName(rapid.SampledFrom(c28NamePool).Draw(t, "absentName"))
+			default:
+				id = c28UnknownID(rapid.IntRange(0, 3).Draw(t, "unk"))
+			}
+			if h.everSet[id] && !currentID[id] {
+				staleID = true
+			}
+			wantIDs = append(wantIDs, id)
+			rq.IDs = append(rq.IDs, fmt.Sprintf("%x", id))
+			rt := kmsg.NewMetadataRequestTopic()
+			rt.TopicID = id
+			rt.Topic = nil
+			req.Topics = append(req.Topics, rt)
+		}
+	}
+	st.Class("req-" + rq.Kind)
+	st.Class(fmt.Sprintf("v%d", version))
+	if h.changed {
+		st.Class("req-after-store-change")
+	}
+	if staleID {
+		st.Class("by-id-request-for-id-no-longer-valid")
+	}
+	h.trace = append(h.trace, fmt.Sprintf("request v%d %s names=%v ids=%v", version, rq.Kind, rq.Names, rq.IDs))
+
+	// ---- reference projection of the store content at this moment
+	ctx := context.Background()
+	var want []c28Proj
+	outOfDomainTopicErr := false
+	switch rq.Kind {
+	case "ids":
+		all, err := store.Metadata(ctx, nil)
+		if err != nil {
+			t.Fatalf("harness: store.Metadata: %v", err)
+		}
+		for _, id := range wantIDs {
+			found := false
+			for _, tp := range all.Topics {
+				if tp.TopicID == id {
+					want = append(want, c28Project(version, tp.Topic, tp.TopicID, tp.ErrorCode, tp.Partitions))
+					found = true
+					if tp.ErrorCode != 0 && len(tp.Partitions) > 0 {
+						outOfDomainTopicErr = true
+					}
+					break
+				}
+			}
+			if !found {
+				hasUnknown = true
+				want = append(want, c28Proj{Name: "", ID: fmt.Sprintf("%x", id), Err: -1}) // -1 = any non-zero error
+			}
+		}
+	default:
+		ref, err := store.Metadata(ctx, rq.Names)
+		if err != nil {
+			t.Fatalf("harness: store.Metadata: %v", err)
+		}
+		known := map[string]bool{}
+		for _, tp := range snap.Topics {
+			known[tp.Name] = true
+		}
+		for _, n := range rq.Names {
+			if !known[n] {
+				hasUnknown = true
+			}
+		}
+		for _, tp := range ref.Topics {
+			want = append(want, c28Project(version, tp.Topic, tp.TopicID, tp.ErrorCode, tp.Partitions))
+			if tp.ErrorCode != 0 && len(tp.Partitions) > 0 {
+				outOfDomainTopicErr = true
+			}
+		}
+	}
+
+	corr := int32(rapid.Int32Range(1, 1<<30).Draw(t, "corr"))
+	reply, err := c28RoundTrip(p, c28EncodeRequest(req, corr))
+	if err != nil {
+		fmt.Println("VF-INCONCLUSIVE: " + err.Error())
+		t.Fatalf("VF-INCONCLUSIVE: %v", err)
+	}
+	if reply == nil {
+		st.Class("no-reply")
+		return false
+	}
+	where := fmt.Sprintf("history %v\n store now %+v", h.trace, snap)
+	gotCorr, body, err := c28SplitReply(reply, version >= 9)
+	if err != nil {
+		t.Fatalf("metadata v%d reply: %v", version, err)
+	}
+	if gotCorr != corr {
+		t.Fatalf("metadata v%d reply has correlation id %d, request had %d", version, gotCorr, corr)
+	}
+	resp := kmsg.NewPtrMetadataResponse()
+	resp.Version = version
+	if err := resp.ReadFrom(body); err != nil {
+		t.Fatalf("metadata v%d reply does not decode: %v (request %+v)\n%s", version, err, rq, where)
+	}
+
+	// ---- only the proxy is named
+	if len(resp.Brokers) != 1 || resp.Brokers[0].NodeID != 0 || resp.Brokers[0].Host != c28Host || resp.Brokers[0].Port != c28Port {
+		t.Fatalf("metadata v%d reply broker list is %+v, want exactly {0 %s %d}\n%s", version, resp.Brokers, c28Host, c28Port, where)
+	}
+	if version >= 1 && resp.ControllerID != 0 {
+		t.Fatalf("metadata v%d reply controller id %d is not the proxy (0); snapshot controller %d", version, resp.ControllerID, snap.Controller)
+	}
+	leaked := false
+	for _, tp := range resp.Topics {
+		for _, pt := range tp.Partitions {
+			// leader -1 names nobody (leaderless partition); anything else must be the proxy
+			if !(pt.Leader == 0 || pt.Leader == -1) || !c28OnlyProxy(pt.Replicas) || !c28OnlyProxy(pt.ISR) || !c28OnlyProxy(pt.OfflineReplicas) {
+				if tp.ErrorCode != 0 && outOfDomainTopicErr {
+					leaked = true
+					continue
+				}
+				name := ""
+				if tp.Topic != nil {
+					name = *tp.Topic
+				}
+				t.Fatalf("metadata v%d reply: topic %q partition %d names a broker other than the proxy: leader=%d replicas=%v isr=%v offline=%v (request %+v)\n%s",
+					version, name, pt.Partition, pt.Leader, pt.Replicas, pt.ISR, pt.OfflineReplicas, rq, where)
+			}
+		}
+	}
+	if leaked {
+		st.Class("observed-only:stored-topic-error-with-partitions-passed-through")
+	}
+
+	// ---- topology kept
+	var got []c28Proj
+	for _, tp := range resp.Topics {
+		got = append(got, c28Project(version, tp.Topic, tp.TopicID, tp.ErrorCode, tp.Partitions))
+	}
+	// unknown ids: any non-zero error code is accepted
+	wantAny := map[string]int{}
+	var wantExact []c28Proj
+	for _, w := range want {
+		if w.Err == -1 {
+			wantAny[w.ID]++
+		} else {
+			wantExact = append(wantExact, w)
+		}
+	}
+	var gotExact []c28Proj
+	for _, g := range got {
+		if wantAny[g.ID] > 0 && g.Err != 0 && g.Parts == "" {
+			wantAny[g.ID]--
+			if g.Err == protocol.UNKNOWN_TOPIC_ID {
+				st.Class("unknown-id-answered-UNKNOWN_TOPIC_ID")
+			} else {
+				st.Class("unknown-id-answered-other-error")
+			}
+			continue
+		}
+		gotExact = append(gotExact, g)
+	}
+	for id, n := range wantAny {
+		if n > 0 {
+			t.Fatalf("metadata v%d by-id reply lacks an error entry for topic id %s, which no topic has now; reply topics %v (request %+v)\n%s", version, id, c28SortProj(got), rq, where)
+		}
+	}
+	ws, gs := c28SortProj(wantExact), c28SortProj(gotExact)
+	if strings.Join(ws, "\n") != strings.Join(gs, "\n") {
+		t.Fatalf("metadata v%d reply topology differs from the cluster metadata at this moment for request %+v\n got:  %v\n want: %v\n%s", version, rq, gs, ws, where)
+	}
+
+	nonZeroLeader := false
+	for _, tp := range snap.Topics {
+		for _, pt := range tp.Parts {
+			if pt.Leader > 0 {
+				nonZeroLeader = true
+			}
+		}
+	}
+	if hasUnknown {
+		st.Class("has-unknown-topic")
+	}
+	if nonZeroLeader {
+		st.Class("snapshot-has-leader-other-than-0")
+	}
+	if len(resp.Topics) == 0 {
+		st.Class("reply-without-topics")
+	}
+	return snap.Brokers >= 2 && (hasUnknown || rq.Kind == "ids")
+}
+
+// Each case is a short history on ONE proxy instance: snapshot S1 (+ the start-up cache
+// refresh main() does), 1-2 requests, the store content changes, more requests (by-id ones
+// prefer ids that were valid earlier), optionally a periodic cache refresh and a second
+// change. Every reply is compared with the store content at that moment.
 func TestVF_C28_Metadata(t *testing.T) {
 	st := vfkit.NewStats("C28", "metadata")
 	defer st.Flush()
 	rapid.Check(t, func(t *rapid.T) {
 		st.Eval()
 		snap := c28DrawSnapshot(t)
+		initial := snap.clone()
 		store := metadata.NewInMemoryStore(snap.cluster())
 		p := &proxy{advertisedHost: c28Host, advertisedPort: c28Port, store: store, logger: c28Discard(),
 			dialTimeout: time.Second, cacheTTL: time.Minute, brokerAddrs: map[string]string{}, topicNames: map[[16]byte]string{},
 			backendRetries: 1, backendBackoff: time.Millisecond}
 		p.setReady(true)
+		p.refreshMetadataCache(context.Background()) // initMetadataCache at start-up (without its 10 s ticker)
+		h := &c28History{p: p, store: store, snap: snap, everSet: map[[16]byte]bool{}}
+		h.remember()
 
-		// rapid favours small indexes: the interesting kinds / versions come first
-		kind := rapid.SampledFrom([]string{"ids", "names", "all", "ids", "names", "empty"}).Draw(t, "kind")
-		var version int16
-		switch kind {
-		case "ids":
-			version = rapid.SampledFrom([]int16{12, 10, 11}).Draw(t, "version")
-		case "empty":
-			version = rapid.SampledFrom([]int16{12, 9, 7, 1, 4, 10, 5, 8, 2, 3, 6, 11}).Draw(t, "version")
-		default:
-			version = rapid.SampledFrom([]int16{12, 9, 7, 0, 10, 1, 11, 8, 6, 4, 5, 2, 3}).Draw(t, "version")
+		nt := false
+		for i, n := 0, rapid.SampledFrom([]int{1, 2}).Draw(t, "requestsBefore"); i < n; i++ {
+			nt = c28Request(t, st, h) || nt
 		}
-		rq := c28Req{Version: version, Kind: kind}
-		req := kmsg.NewPtrMetadataRequest()
-		req.Version = version
-		req.AllowAutoTopicCreation = rapid.Bool().Draw(t, "autoCreate")
-		hasUnknown := false
-		var wantIDs [][16]byte
-		switch rq.Kind {
-		case "all":
-			req.Topics = nil
-		case "empty":
-			req.Topics = []kmsg.MetadataRequestTopic{}
-		case "names":
-			n := rapid.IntRange(1, 4).Draw(t, "nreq")
-			for i := 0; i < n; i++ {
-				var name string
-				if len(snap.Topics) > 0 && rapid.IntRange(0, 2).Draw(t, "knownDie") != 1 {
-					name = snap.Topics[rapid.IntRange(0, len(snap.Topics)-1).Draw(t, "pick")].Name
-				} else {
-					name = rapid.SampledFrom(append([]string{"nope", "orders2", "A"}, c28NamePool...)).Draw(t, "name")
-				}
-				rq.Names = append(rq.Names, name)
-				rt := kmsg.NewMetadataRequestTopic()
-				rt.Topic = kmsg.StringPtr(name)
-				req.Topics = append(req.Topics, rt)
+		rounds := rapid.SampledFrom([]int{1, 2, 1, 0}).Draw(t, "changeRounds")
+		for r := 0; r < rounds; r++ {
+			for i, n := 0, rapid.SampledFrom([]int{1, 2}).Draw(t, "mutations"); i < n; i++ {
+				c28Mutate(t, h)
 			}
-		case "ids":
-			n := rapid.IntRange(1, 4).Draw(t, "nreq")
-			for i := 0; i < n; i++ {
-				var id [16]byte
-				if len(snap.Topics) > 0 && rapid.IntRange(0, 2).Draw(t, "knownDie") != 1 {
-					id = metadata.TopicIDForName(snap.Topics[rapid.IntRange(0, len(snap.Topics)-1).Draw(t, "pick")].Name)
-				} else if rapid.Bool().Draw(t, "idOfAbsentName") {
-					id = metadata.TopicIDForName(rapid.SampledFrom(c28NamePool).Draw(t, "absentName"))
-				} else {
-					id = c28UnknownID(rapid.IntRange(0, 3).Draw(t, "unk"))
-				}
-				wantIDs = append(wantIDs, id)
-				rq.IDs = append(rq.IDs, fmt.Sprintf("%x", id))
-				rt := kmsg.NewMetadataRequestTopic()
-				rt.TopicID = id
-				rt.Topic = nil
-				req.Topics = append(req.Topics, rt)
+			if rapid.IntRange(0, 3).Draw(t, "tickDie") == 2 {
+				p.refreshMetadataCache(context.Background()) // the periodic 10 s refresh fired
+				h.trace = append(h.trace, "cache-refresh-tick")
+				st.Class("periodic-refresh-between-requests")
+			}
+			for i, n := 0, rapid.SampledFrom([]int{2, 1, 3}).Draw(t, "requestsAfter"); i < n; i++ {
+				nt = c28Request(t, st, h) || nt
 			}
 		}
-		st.Class("req-" + rq.Kind)
-		st.Class(fmt.Sprintf("v%d", version))
-
-		// ---- reference projection
-		ctx := context.Background()
-		var want []c28Proj
-		outOfDomainTopicErr := false
-		switch rq.Kind {
-		case "ids":
-			all, err := store.Metadata(ctx, nil)
-			if err != nil {
-				t.Fatalf("harness: store.Metadata: %v", err)
-			}
-			for _, id := range wantIDs {
-				found := false
-				for _, tp := range all.Topics {
-					if tp.TopicID == id {
-						want = append(want, c28Project(version, tp.Topic, tp.TopicID, tp.ErrorCode, tp.Partitions))
-						found = true
-						if tp.ErrorCode != 0 && len(tp.Partitions) > 0 {
-							outOfDomainTopicErr = true
-						}
-						break
-					}
-				}
-				if !found {
-					hasUnknown = true
-					want = append(want, c28Proj{Name: "", ID: fmt.Sprintf("%x", id), Err: -1}) // -1 = any non-zero error
-				}
-			}
-		default:
-			ref, err := store.Metadata(ctx, rq.Names)
-			if err != nil {
-				t.Fatalf("harness: store.Metadata: %v", err)
-			}
-			known := map[string]bool{}
-			for _, tp := range snap.Topics {
-				known[tp.Name] = true
-			}
-			for _, n := range rq.Names {
-				if !known[n] {
-					hasUnknown = true
-				}
-			}
-			for _, tp := range ref.Topics {
-				want = append(want, c28Project(version, tp.Topic, tp.TopicID, tp.ErrorCode, tp.Partitions))
-				if tp.ErrorCode != 0 && len(tp.Partitions) > 0 {
-					outOfDomainTopicErr = true
-				}
-			}
-		}
-
-		corr := int32(rapid.Int32Range(1, 1<<30).Draw(t, "corr"))
-		reply, err := c28RoundTrip(p, c28EncodeRequest(req, corr))
-		if err != nil {
-			fmt.Println("VF-INCONCLUSIVE: " + err.Error())
-			t.Fatalf("VF-INCONCLUSIVE: %v", err)
-		}
-		if reply == nil {
-			st.Class("no-reply")
-			return
-		}
-		gotCorr, body, err := c28SplitReply(reply, version >= 9)
-		if err != nil {
-			t.Fatalf("metadata v%d reply: %v", version, err)
-		}
-		if gotCorr != corr {
-			t.Fatalf("metadata v%d reply has correlation id %d, request had %d", version, gotCorr, corr)
-		}
-		resp := kmsg.NewPtrMetadataResponse()
-		resp.Version = version
-		if err := resp.ReadFrom(body); err != nil {
-			t.Fatalf("metadata v%d reply does not decode: %v (snapshot %+v request %+v)", version, err, snap, rq)
-		}
-
-		// ---- only the proxy is named
-		if len(resp.Brokers) != 1 || resp.Brokers[0].NodeID != 0 || resp.Brokers[0].Host != c28Host || resp.Brokers[0].Port != c28Port {
-			t.Fatalf("metadata v%d reply broker list is %+v, want exactly {0 %s %d} (snapshot %+v)", version, resp.Brokers, c28Host, c28Port, snap)
-		}
-		if version >= 1 && resp.ControllerID != 0 {
-			t.Fatalf("metadata v%d reply controller id %d is not the proxy (0); snapshot controller %d", version, resp.ControllerID, snap.Controller)
-		}
-		leaked := false
-		for _, tp := range resp.Topics {
-			for _, pt := range tp.Partitions {
-				// leader -1 names nobody (leaderless partition); anything else must be the proxy
-				if !(pt.Leader == 0 || pt.Leader == -1) || !c28OnlyProxy(pt.Replicas) || !c28OnlyProxy(pt.ISR) || !c28OnlyProxy(pt.OfflineReplicas) {
-					if tp.ErrorCode != 0 && outOfDomainTopicErr {
-						leaked = true
-						continue
-					}
-					name := ""
-					if tp.Topic != nil {
-						name = *tp.Topic
-					}
-					t.Fatalf("metadata v%d reply: topic %q partition %d names a broker other than the proxy: leader=%d replicas=%v isr=%v offline=%v (snapshot %+v request %+v)",
-						version, name, pt.Partition, pt.Leader, pt.Replicas, pt.ISR, pt.OfflineReplicas, snap, rq)
-				}
-			}
-		}
-		if leaked {
-			st.Class("observed-only:stored-topic-error-with-partitions-passed-through")
-		}
-
-		// ---- topology kept
-		var got []c28Proj
-		for _, tp := range resp.Topics {
-			got = append(got, c28Project(version, tp.Topic, tp.TopicID, tp.ErrorCode, tp.Partitions))
-		}
-		// unknown ids: any non-zero error code is accepted
-		wantAny := map[string]int{}
-		var wantExact []c28Proj
-		for _, w := range want {
-			if w.Err == -1 {
-				wantAny[w.ID]++
-			} else {
-				wantExact = append(wantExact, w)
-			}
-		}
-		var gotExact []c28Proj
-		for _, g := range got {
-			if wantAny[g.ID] > 0 && g.Err != 0 && g.Parts == "" {
-				wantAny[g.ID]--
-				if g.Err == protocol.UNKNOWN_TOPIC_ID {
-					st.Class("unknown-id-answered-UNKNOWN_TOPIC_ID")
-				} else {
-					st.Class("unknown-id-answered-other-error")
-				}
-				continue
-			}
-			gotExact = append(gotExact, g)
-		}
-		for id, n := range wantAny {
-			if n > 0 {
-				t.Fatalf("metadata v%d by-id reply lacks an error entry for unknown topic id %s; reply topics %v (request %+v)", version, id, c28SortProj(got), rq)
-			}
-		}
-		ws, gs := c28SortProj(wantExact), c28SortProj(gotExact)
-		if strings.Join(ws, "\n") != strings.Join(gs, "\n") {
-			t.Fatalf("metadata v%d reply topology differs from cluster metadata for request %+v\n got:  %v\n want: %v\n snapshot %+v", version, rq, gs, ws, snap)
-		}
-
-		nonZeroLeader := false
-		for _, tp := range snap.Topics {
-			for _, pt := range tp.Parts {
-				if pt.Leader > 0 {
-					nonZeroLeader = true
-				}
-			}
-		}
-		if hasUnknown {
-			st.Class("has-unknown-topic")
-		}
-		if nonZeroLeader {
-			st.Class("snapshot-has-leader-other-than-0")
-		}
-		if len(resp.Topics) == 0 {
-			st.Class("reply-without-topics")
-		}
-		if snap.Brokers >= 2 && (hasUnknown || rq.Kind == "ids") {
-			if st.NonTrivial(snap, rq) {
-				st.Sample(map[string]any{"snapshot": snap, "request": rq, "reply_topics": gs})
+		st.Class(fmt.Sprintf("change-rounds=%d", rounds))
+		if nt {
+			if st.NonTrivial(initial, h.trace) {
+				st.Sample(map[string]any{"initial_snapshot": initial, "history": h.trace})
 			}
 		}
 	})
